@@ -285,9 +285,48 @@ func c12(x *mon.Ctx) {
 	staleDefaultTime(x)
 }
 
+// defaultTimeInLocalZones: with Options.Now nil the library judges "now". The verdict must be the verdict under an explicit
+// time set of time.Now(), whatever the process's local time zone is (certificates one hour before / after their expiry).
+func defaultTimeInLocalZones(x *mon.Ctx) {
+	saved := time.Local
+	defer func() { time.Local = saved }()
+	r := x.Rand("default-zone")
+	p := world.RandPlatform(r)
+	root := world.Issue(world.RootTemplate(world.Far), nil, world.NewKey())
+	inter := world.Issue(world.InterTemplate(world.CNPlatform, world.Far), root, world.NewKey())
+	pool := x509.NewCertPool()
+	pool.AddCert(root.Cert)
+	for _, z := range []struct {
+		name string
+		off  int
+	}{{"UTC+9", 9 * 3600}, {"UTC-8", -8 * 3600}, {"UTC+5:45", 5*3600 + 45*60}, {"UTC+14", 14 * 3600}, {"UTC", 0}} {
+		time.Local = time.FixedZone(z.name, z.off)
+		for _, d := range []struct {
+			name string
+			off  time.Duration
+		}{{"expires-in-1h", time.Hour}, {"expired-1h-ago", -time.Hour}, {"expires-in-10h", 10 * time.Hour}, {"expired-10h-ago", -10 * time.Hour}} {
+			leaf := world.Issue(world.LeafTemplate(world.Window{NotBefore: world.Far.NotBefore, NotAfter: time.Now().Add(d.off)}, world.SgxExtension(p)), inter, world.NewKey())
+			pki := &world.PKI{Root: root, Inter: inter, Leaf: leaf, TcbSign: inter}
+			q, _ := world.HonestQuote(r, pki, p, world.QuoteShape{AuthLen: 32})
+			raw := q.Bytes()
+			now := time.Now()
+			errDefault := verify.RawTdxQuote(raw, &verify.Options{TrustedRoots: pool, Getter: &world.Getter{R: map[string]world.Resp{}}})
+			errExplicit := verify.RawTdxQuote(raw, &verify.Options{TrustedRoots: pool, Getter: &world.Getter{R: map[string]world.Resp{}},
+				Now: &verify.TimeSet{PckCertChain: now, TcbInfo: now, QeIdentity: now, PckCrl: now, RootCaCrl: now}})
+			param := z.name + "/" + d.name
+			if (errDefault == nil) != (errExplicit == nil) {
+				x.Violation("default-time-in-local-zone", param, fmt.Sprintf("process time zone %s, leaf certificate %s: with Options.Now nil the quote is accepted=%v (%v), with the explicit time set time.Now() it is accepted=%v (%v)", z.name, d.name, errDefault == nil, errDefault, errExplicit == nil, errExplicit), "none", param)
+			}
+			x.Note("default-time-in-local-zone", param, errDefault == nil, false, true)
+		}
+	}
+	x.Require("default-time-in-local-zone", 10, 10, 20)
+}
+
 // staleDefaultTime: a caller that leaves Options.Now nil and re-uses the value must be judged at the
 // time of each call, exactly like a fresh value.
 func staleDefaultTime(x *mon.Ctx) {
+	defaultTimeInLocalZones(x)
 	r := x.Rand("stale")
 	p := world.RandPlatform(r)
 	root := world.Issue(world.RootTemplate(world.Far), nil, world.NewKey())
